@@ -82,7 +82,9 @@ def run_replicator(ctx, pid):
     mon = ctx.tlc(SPEC, "Mon_Replicator.cfg", dfs=True, files={"trace.ndjson": trace}, timeout=2400, heap="12g")
     if mon.depth != nlines + 1:
         raise vlib.Infra("monitor did not consume the whole trace (%d of %d)" % (mon.depth - 1, nlines))
-    mism = [(int(a), b, c) for a, b, c in re.findall(r'<<"MISMATCH", (\d+), "(\w+)", "(\w+)">>', mon.out)]
+    mism = [tuple(t) for t in vlib.tuples(mon.out, "MISMATCH")]
+    if len(mism) != mon.out.count('"MISMATCH"') or any(len(t) != 3 or not isinstance(t[0], int) for t in mism):
+        raise vlib.Infra("unparsed MISMATCH lines in monitor output")
     conf = ctx.tlc(SPEC, "Trace_Replicator.cfg", dfs=True, files={"trace.ndjson": trace}, timeout=2400, heap="12g", expect_fail=True)
     drift = None
     rows = None
@@ -205,13 +207,10 @@ def run(ctx, pid):
     # ---- 5. the property monitor -------------------------------------------------------------------------
     if pid == "C38":
         trace, cfg, nlines = os.path.join(outdir, "laws.ndjson"), "Mon_CrdtLaws.cfg", stats["laws"]
-        pat = r'<<"MISMATCH", (\d+), "(\w+)", "([\w-]+)", "(\w*)">>'
     elif pid == "C39":
         trace, cfg, nlines = steps, "Mon_CrdtConv.cfg", stats["steps"]
-        pat = r'<<"MISMATCH", (\d+), "(\w+)", "([\w-]+)", "\w+", "(\w*)">>'
     else:
         trace, cfg, nlines = os.path.join(outdir, "codec.ndjson"), "Mon_CrdtCodec.cfg", stats["codec"]
-        pat = r'<<"MISMATCH", (\d+), "(\w+)", "([\w-]+)", "(\w*)">>'
     cap = 25000 if quick else 400000
     if pid != "C39" and nlines > cap:      # records are independent of each other: judge a seeded sample
         with open(trace) as f:
@@ -227,9 +226,11 @@ def run(ctx, pid):
     mon = ctx.tlc(SPEC, cfg, dfs=True, files={"trace.ndjson": trace}, timeout=2400, heap="12g")
     if mon.depth != nlines + 1:
         raise vlib.Infra("monitor did not consume the whole trace (%d of %d)" % (mon.depth - 1, nlines))
-    mism = [(int(a), b, c, d) for a, b, c, d in re.findall(pat, mon.out)]
-    if len(mism) != mon.out.count('"MISMATCH"'):
+    # <<"MISMATCH", line, type, kind, [replica,] cause-or-flavour>>
+    tl = vlib.tuples(mon.out, "MISMATCH")
+    if len(tl) != mon.out.count('"MISMATCH"') or any(len(t) != (5 if pid == "C39" else 4) or not isinstance(t[0], int) for t in tl):
         raise vlib.Infra("unparsed MISMATCH lines in monitor output")
+    mism = [(t[0], t[1], t[2], t[-1]) for t in tl]
 
     known, unknown = [], []
     for m in mism:
